@@ -50,3 +50,5 @@ static size_t ref_oer(const struct tval *v, uint8_t *out, size_t cap) {
     if(tv_c(v) != 7) oer_int(&o, tv_c(v), 1, -5, 1, 1000, 1000);
     return o.n;
 }
+static int tv_wf(const struct tval *v) { return v->has_b <= 1 && v->b <= 1 && v->has_c <= 1; }
+#define tv_wellformed tv_wf
